@@ -32,6 +32,27 @@ CLAIMS = {
 
 NOT_APPLICABLE = {}
 
+CLAIMS["C05"] = dict(
+    text="Proof over Z for the evaluation side: each of the 12 infix and 4 prefix operator bodies equals the documented arithmetic (floor division and modulo for "
+         "either sign, shifts as multiplication / floor division by 2^n, bitwise operators are Python's), division by zero and negative shift counts are "
+         "'arithmetic-error' reports; InfixOperator.resolve / UnaryOperator.resolve denote fn(values) for ready and lazy operands; Number.resolve reports 8/9 once; "
+         "LinearPolynomial +, -, *, unary -, _wait preserve the abstract value for every valuation (enumerated key structures, symbolic coefficients) with the "
+         "representation invariant. Closed: operator spellings, C-like relative precedences, left associativity. The literal scanner and the precedence loop of the "
+         "parser are covered only by BOUNDED stand-ins (real parser+assembler vs an independent evaluator), reported separately and not counted as proved.",
+    note="Trusted: pyvc, z3, uninterpreted pow2 / bitwise functions on both sides, spec/expr_spec.py. Bounded (not proof): 11900 literal spellings up to length 4; every "
+         "ordered operator pair flat and grouped, every prefix/infix combination (triples in thorough). Expression trees of depth 6 through the real parser are not claimed. "
+         "The per-token value cache (finding D3) is owned by C16.",
+)
+
+CLAIMS["C09"] = dict(
+    text="Lemmas over the encoder contracts (which are re-discharged against the real code in the same check): relative and relative-deferred words and branch/SOB "
+         "displacements to targets inside the program are independent of the link base for all integers incl. wrap-around modulo 2^16; immediate/absolute/index words "
+         "and word data move by exactly the base difference; differences of program addresses are constants; LinearPolynomial keeps the base coefficient exact "
+         "(x - x has no variable). A run-time check assembles programs with a known number of absolute references at three bases (testing, counted separately).",
+    note="Trusted: z3, pyvc. That a given program contains a stated number of absolute references is a whole-program count - only the run-time check looks at it. "
+         "Address = base + offset is the C02 accounting invariant.",
+)
+
 CLAIMS["C14"] = dict(
     text="Closed, exhaustive on the real module: all 256 bytes decode and re-encode to themselves; agreement with the stdlib ascii codec on 0x00-0x7E and koi8_r on "
          "0xC0-0xFF; ENCODING_TABLE is exactly the inverse relation of DECODING_TABLE; for each of the 1114112 code points encode succeeds iff the character is in the "
